@@ -1114,7 +1114,7 @@ Section Correct.
           -- cbn [fin_pure eval]. destruct sg0.
              ++ cbn [fin_pure eval]. rewrite He. f_equal. f_equal. apply (cast_widen w0 w true z); auto.
              ++ cbn [fin_pure eval]. rewrite He. f_equal. f_equal. apply (cast_widen w0 w false z); auto.
-          -- unfold cast_il_exec. cbn [vt_w vt_sg ty_h fin_pure eval].
+          -- unfold cast_il_exec. cbn [vt_w vt_sg ty_h fin_pure eval]. rewrite Elt, andb_false_r. cbn [andb]. rewrite orb_false_r.
              destruct (sg && sg0); cbn [fin_pure eval]; rewrite He; f_equal; f_equal; apply cast_narrow; auto; lia.
         * cbn [pv_ty cval_of ty_h vt_sg]. reflexivity.
   Qed.
@@ -1379,7 +1379,7 @@ Section Correct.
       + destruct s0; cbn [fin_pure eval]; rewrite He; f_equal; f_equal.
         * apply (cast_widen w0 w true z); auto.
         * apply (cast_widen w0 w false z); auto.
-      + unfold cast_il_exec. cbn [vt_w vt_sg ty_int ty_h ty_tok fin_pure eval].
+      + unfold cast_il_exec. cbn [vt_w vt_sg ty_int ty_h ty_tok fin_pure eval]. rewrite Elt, andb_false_r. cbn [andb]. rewrite orb_false_r.
         destruct (sg && s0); cbn [fin_pure eval]; rewrite He; f_equal; f_equal; apply cast_narrow; auto; lia.
     - cbn [pv_ty cval_of ty_int ty_h vt_sg]. reflexivity.
   Qed.
